@@ -327,7 +327,10 @@ fn eval_loc_expr(
                     }
                 }
             }
-            //collected.dedup();
+            // Each step yields a set: without this a node reached along several paths is
+            // carried once per path and `//a//a//a...` grows exponentially.
+            let mut set = HashSet::new();
+            collected.retain(|v| set.insert(v.order()));
             nodes = collected;
         }
     }
